@@ -3,8 +3,8 @@
    Print Assumptions follows every theorem.  Container level: the footer written by WriteTo parses back to the same fields for every data section; the per-term, stored and doc-value layouts are covered by C05/C06/C07; the reload of the model is the identity. *)
 
 From Coq Require Import List NArith Bool Sorting Permutation.
-From Ice Require Import Base Spec Varint Chunk Crc32 Footer Stored Run Container IntCoder Postings.
-From IceProofs Require Footer_Proofs Immut_Proofs Stored_Proofs Container_Proofs IntCoder_Proofs.
+From Ice Require Import Base Spec Varint Chunk Crc32 Footer Stored Run Container IntCoder Postings Reuse Dict.
+From IceProofs Require Footer_Proofs Immut_Proofs Stored_Proofs Container_Proofs IntCoder_Proofs Reuse_Proofs.
 Import ListNotations.
 Open Scope N_scope.
 
@@ -240,3 +240,35 @@ Example ex_go_empty :
     Container_Proofs.go_empty = Container_Proofs.ex_empty_segment.
 Proof. exact @Container_Proofs.ex_go_empty. Qed.
 Print Assumptions ex_go_empty.
+
+(* the per-term record of writePostings (freq offset, location offset delta, roaring length and bytes) is read back by PostingsList.read under the exact look-ahead condition ... *)
+Theorem term_record_roundtrip :
+    forall (pre post : bytes) (tf loc : N) (rb : bytes),
+    let data := pre ++ term_record tf loc rb ++ post in
+    lenN data < two63 ->
+    tf < two64 ->
+    loc < two64 ->
+    lenN rb < two64 ->
+    loc = 0 \/ tf = 0 \/ tf < loc ->
+    Reuse_Proofs.record_lookahead_ok rb (lenN post) -> read_term_record data (lenN pre) = Ok (tf, loc, rb).
+Proof. exact @Reuse_Proofs.term_record_roundtrip. Qed.
+Print Assumptions term_record_roundtrip.
+
+(* ... which holds for every term record of a segment because the fields section follows *)
+Theorem term_record_in_segment :
+    forall (blocks : list bytes) (docOffsets : list N) (d1 d2 : bytes) (locs : list (N * N))
+    (fields : list field_rec) (tf loc : N) (rb : bytes),
+    let dicts := d1 ++ term_record tf loc rb ++ d2 in
+    let data := fst (segment_data blocks docOffsets dicts locs fields) in
+    let postingsOffset :=
+    lenN
+    ((flat_map' (fun b : list N => b) blocks ++ stored_trailer (0 :: coder_offsets 0 blocks)) ++
+    stored_index docOffsets ++ d1) in
+    lenN data < two63 ->
+    fields <> [] ->
+    tf < two64 ->
+    loc < two64 ->
+    lenN rb < two64 ->
+    loc = 0 \/ tf = 0 \/ tf < loc -> read_term_record data postingsOffset = Ok (tf, loc, rb).
+Proof. exact @Reuse_Proofs.term_record_in_segment. Qed.
+Print Assumptions term_record_in_segment.
